@@ -80,6 +80,8 @@ FAMILIES = {
         {'family': 'lease', 'knobs': {'end_with_loss': True}, 'quick': 150, 'thorough': 2500, 'first': 800000},
         # close() called from inside on_keepalive_timeout / on_close
         {'family': 'close_cb', 'knobs': {}, 'quick': 200, 'thorough': 3000, 'first': 700000},
+        # close() while the FIRST connect is still under way (transport provider / transport.connect() suspended, SETUP not sent yet)
+        {'family': 'setup_client', 'knobs': {'p_early': 1.0, 'early': ['close']}, 'quick': 150, 'thorough': 2000, 'first': 950000},
         # explicit close() while a reconnect the application asked for is under way
         {'family': 'reconnect', 'knobs': {'who': 'app', 'p_close_race': 1.0, 'p_stale_fragments': 0.0}, 'quick': 200, 'thorough': 3000, 'first': 600000},
     ],
@@ -110,6 +112,8 @@ FAMILIES = {
          'quick': 300, 'thorough': 4000, 'first': 200000},
         # the next transport cannot be connected (server down): the application retries from on_connection_error
         {'family': 'reconnect', 'knobs': {'p_connect_fail': 1.0, 'p_stale_fragments': 0.0}, 'quick': 200, 'thorough': 3000, 'first': 300000},
+        # reconnect() while the FIRST connect is still under way
+        {'family': 'setup_client', 'knobs': {'p_early': 1.0, 'early': ['reconnect']}, 'quick': 150, 'thorough': 2000, 'first': 950000},
         # a lease-honouring client reconnects while requests are waiting for a lease: "requests issued afterwards are served" once the new
         # connection's LEASE allows them (whatever the previous connection left behind)
         {'family': 'lease', 'knobs': {'p_reconnect': 0.2}, 'quick': 250, 'thorough': 4000, 'first': 500000,
